@@ -193,7 +193,11 @@ META = {
                 "incl. N=0, W=0, N>2W (C10_char_ngram_spec, C10_type_ngram_spec); dictionary features are counted one per "
                 "dictionary-word occurrence touching the boundary, left/inside/right by length bucket (C10_dict_spec, "
                 "C10_dict_matches). Tied to /repo through hook H2 (Trainer::verif_examples): the stored examples, with feature ids "
-                "decoded, must equal the model's examples and an independent enumeration in the harness.",
+                "decoded, must equal the model's examples and an independent enumeration in the harness. At the level of the `train` tool "
+                "(VModel/TrainCli.lean, tied through hook H5, which records the arguments of Trainer::new and of every add_example while the "
+                "real tool runs): every accepted corpus line reaches the learner as one sentence, in order, over the normalised text with the "
+                "labels, tag count and tags of the line, the identity under --no-norm; a rejected line is an error; nothing panics "
+                "(C10_train_tool_line, C10_train_tool_corpus).",
         "design_ref": "DESIGN.md §6 C10",
         "note": _common_note + "Feature-id assignment and the sparse-vector layout handed to liblinear are not modelled (the hook decodes ids back to features).",
         "technique": "Lean 4 proof (counting lemmas over the mirrored loops) + hook-based differential correspondence",
@@ -253,7 +257,11 @@ META = {
                 "storing (C11_predict_total, from C01_scores and C06). liblinear itself (error returns, label order, NaN), the f64 "
                 "quantisation and window size 0 are the runtime remainder, covered by the sweep: all 8 solvers x window/n-gram sizes "
                 "0..4 x six corpus kinds (empty, single class, untagged, partially tagged, partially annotated, ambiguous tags), each "
-                "followed by write -> read -> Predictor::new(., true/false) -> predict + fill_tags and an i16-range check of every weight.",
+                "followed by write -> read -> Predictor::new(., true/false) -> predict + fill_tags and an i16-range check of every weight. "
+                "The loading stage of the `train` tool (anchored file train/src/main.rs; VModel/TrainCli.lean, tied through hook H5) is total: "
+                "whatever the files contain it ends with the trainer's arguments or an error (C11_train_tool_loading_total), and the word "
+                "dictionary it builds is strictly sorted, free of empty and repeated words and exactly the token surfaces of the normalised "
+                "dictionary lines, so Trainer::new always accepts it (C11_train_tool_dictionary).",
         "design_ref": "DESIGN.md §6 C11",
         "note": _common_note + "PARTIAL by nature: 'training never panics' for the learner call itself is established by the sweep (exploration), not by a "
                 "theorem; the theorems cover everything before and after the learner.",
